@@ -6,7 +6,7 @@ S = core.tla_set
 
 
 def run(ctx):
-    ctx.kats(["KAT_Bn", "BigNatAgree"] + gt.KATS, seed_const=("GF2Agree", "BigNatAgree"))
+    ctx.kats(["KAT_Bn", "KAT_BnG2c", "BigNatAgree"] + gt.KATS, seed_const=("GF2Agree", "BigNatAgree"))
     out = os.path.join(ctx.scratch, "c09.ndjson")
     quick = ctx.tier == "quick"
     base = [0, 1, 2, 3, 4, 5, 6]
@@ -53,5 +53,5 @@ def run(ctx):
         return tuple((x["op"], x["grp"], x.get("k", "")[:4] + x.get("k", "")[-4:], x.get("src"), x.get("a"), x.get("b")) for x in s)
     ctx.count_distinct(out, key)
     ctx.assumptions += ["G1 and G2 results are exact (affine big-integer arithmetic over F_p and F_p^2 in Bn.tla)",
-                        "decoder inputs: canonical, coordinate+p, coordinate=p, off-curve, infinity, short, trailing, all-ones for 8 (quick) / 32 (thorough) points; G2 compressed decoding and G2 subgroup membership are not modelled"]
+                        "decoder inputs: canonical, coordinate+p, coordinate=p, off-curve, infinity, short, trailing, all-ones for 8 (quick) / 32 (thorough) points; G2 compressed decoding is modelled for multiples of the generator and their non-canonical / malformed variants (square roots in F_p^2: algo/BnG2c); G2 subgroup membership of foreign on-twist points is not modelled"]
     return ctx.finish(rule="one case per TLC transition of MC_C09: programs of <=3-4 group operations over registers (base, mul, add, neg, double, pair) with scalar classes 0,1,2,n-1,n,n+1,2^256-1, window one-hots, random; bilinearity macro programs; decoder cases; GT register programs of MC_C09gt with the exact 384-byte values of the TLA+ F_p^12 tower and R-ate pairing (pinned to GM/T 0044.5 annex values); each replayed under 5 field-arithmetic backends; plus one case per row of MC_Fel (gfp / gfp2 primitive, left operand, all right operands) on the limb-level primitives; distinct = distinct programs / decoder cases / rows")
